@@ -465,6 +465,59 @@ theorem leaf_WriterOK (is : List Instr) (hb : Balanced is) : WriterOK (fun b => 
   have := h b hv hc
   simpa [callIOS, callIO, runS_prims] using this
 
+/-! ### every sequence of calls -/
+
+/-- **The source side of the contract along a whole history.** Any number of consecutive calls, each
+with any body of the modelled kind (any exit point, any callees that keep the contract), on the same
+source buffer: it stays valid, the read index never moves back, the bytes and `len` never change, `wi`
+never grows — relative to the state before the FIRST call. -/
+theorem reader_history (bodies : List (List Step)) (hb : ∀ l ∈ bodies, CalleesOK false l) (b0 : Buf)
+    (hv : b0.valid) :
+    (bodies.foldl (fun b l => callIOS false b l) b0).valid ∧
+    b0.ri ≤ (bodies.foldl (fun b l => callIOS false b l) b0).ri ∧
+    (bodies.foldl (fun b l => callIOS false b l) b0).mem = b0.mem ∧
+    (bodies.foldl (fun b l => callIOS false b l) b0).len = b0.len ∧
+    (bodies.foldl (fun b l => callIOS false b l) b0).wi ≤ b0.wi := by
+  induction bodies generalizing b0 with
+  | nil => exact ⟨hv, Nat.le_refl _, rfl, rfl, Nat.le_refl _⟩
+  | cons l r ih =>
+    have h1 := iobuf_inv_reader_calls b0 hv l (hb l (by simp))
+    have h2 := ih (fun l' hl' => hb l' (by simp [hl'])) (callIOS false b0 l) h1.1
+    simp only [List.foldl_cons]
+    refine ⟨h2.1, Nat.le_trans h1.2.1 h2.2.1, ?_, ?_, Nat.le_trans h2.2.2.2.2 h1.2.2.2.2⟩
+    · rw [h2.2.2.1, h1.2.2.1]
+    · rw [h2.2.2.2.1, h1.2.2.2.1]
+
+/-- **The destination side along a whole history** (open destination): valid, the write index never
+moves back, `ri` untouched, every byte below the write index before the FIRST call unchanged, `len` not
+grown. -/
+theorem writer_history (bodies : List (List Step)) (hb : ∀ l ∈ bodies, CalleesOK true l) (b0 : Buf)
+    (hv : b0.valid) (hopen : b0.closed = false) :
+    (bodies.foldl (fun b l => callIOS true b l) b0).valid ∧
+    b0.wi ≤ (bodies.foldl (fun b l => callIOS true b l) b0).wi ∧
+    (bodies.foldl (fun b l => callIOS true b l) b0).ri = b0.ri ∧
+    (∀ i, i < b0.wi → (bodies.foldl (fun b l => callIOS true b l) b0).mem[i]? = b0.mem[i]?) ∧
+    (bodies.foldl (fun b l => callIOS true b l) b0).len ≤ b0.len := by
+  induction bodies generalizing b0 with
+  | nil => exact ⟨hv, Nat.le_refl _, rfl, fun _ _ => rfl, Nat.le_refl _⟩
+  | cons l r ih =>
+    have hl := hb l (by simp)
+    have h1 := iobuf_inv_writer_calls b0 hv hopen l hl
+    have hI := runS_WInv b0 hv hopen l hl _ (load_WInv b0 hv)
+    have hcl : (callIOS true b0 l).closed = false := by
+      have : (finalSave (runS (load true b0) l)).closed = (runS (load true b0) l).b.closed := by
+        unfold finalSave; split
+        · rfl
+        · simp [hI.w]
+      show (finalSave (runS (load true b0) l)).closed = false
+      rw [this, hI.closed, hopen]
+    have h2 := ih (fun l' hl' => hb l' (by simp [hl'])) (callIOS true b0 l) h1.1 hcl
+    simp only [List.foldl_cons]
+    refine ⟨h2.1, Nat.le_trans h1.2.1 h2.2.1, ?_, ?_, Nat.le_trans h2.2.2.2.2 h1.2.2.2.2⟩
+    · rw [h2.2.2.1, h1.2.2.1]
+    · intro i hi
+      rw [h2.2.2.2.1 i (by omega), h1.2.2.2.1 i hi]
+
 /-! ### non-vacuity: a two-level call tree -/
 
 /-- the inner function reads two bytes under a limit; the outer one reads one byte, calls it, then
